@@ -57,8 +57,9 @@ intro = '''## 11. Seeded changes and which checks catch them
 Each change was written by a fresh sub-agent that was given only the text of one property and its own scratch
 worktree (nothing from /verif), and was kept only after `tools/confirm_mut.sh` had confirmed, in another scratch
 worktree of the current `/repo` HEAD, that the demonstration passes without the change and fails with it and that
-the whole existing suite still passes with it.  Three batches were produced (`-a`, `-b`, `-c`; the third with the
-request to prefer the less obvious code paths, both stacks and both roles).  After the last `fix:` commit all of
+the whole existing suite still passes with it.  Four batches were produced (`-a`, `-b`, `-c`, `-d`; the third and
+fourth with the request to prefer the less obvious code paths, both stacks and both roles; the fourth for the seven
+properties that had the fewest changes).  After the last `fix:` commit all of
 them were confirmed again against the repaired tree (`tools/reconfirm_all.sh`).  Changes whose patch no longer
 applied after a `fix:` commit were re-made by hand at the same site and confirmed again; demonstrations that relied
 on behaviour a fix removed (the stock client remembering the session of a failed handshake; the one-timeout stall
@@ -89,7 +90,9 @@ under C03 (C03-b2, C03-c2), sequence-number carry lemma from an arbitrary 64-bit
 is final after CloseWrite / for a HelloRequest / for a replay (C05-c1, C12-c1), datagram round trip around the CBC
 block boundary (C06-c1), evicted identifiers under C10 (C10-b1), close_notify coalesced with the last record (C12-c2),
 decoders consume the whole slice (C14-b2), fragment flood under C17 (C17-b2), empty non-nil cookie secret (C18-b2),
-duplicate suppression and fragment reordering under C19 (C19-b2, C19-c2).  Not caught and not catchable by this
+duplicate suppression and fragment reordering under C19 (C19-b2, C19-c2); after the fourth batch: peer identity of
+a resumed connection with and without verification (C10-d2), the datagram source-address filter that the cookie
+binding rests on (C18-d1; this needed a model of `(net.IP).String` on concrete addresses in the engine).  Not caught and not catchable by this
 technique: `C11-C11-c2` (a read-lock fast path in the session cache that is wrong only under a concurrent eviction:
 every sequential history is correct; goroutine schedules are outside the engine, see C13 in section 8).
 
